@@ -21,6 +21,194 @@ TEMPLATES = [
 ]
 
 
+IMPLICIT_RETURN_SHAPES = [
+    # a function with a return annotation and an implicit `return None`; its last line closes a multi-line construct
+    'def f(x) -> int:\n  g(x,\n    x)\n',
+    'def f(x) -> int:\n  y = x[\n    0]\n',
+    'def f(x) -> int:\n  y = (x <\n    1)\n',
+    'def f(x) -> int:\n  y = [\n    x]\n',
+    'def f(x) -> int:\n  y = {\n    1: x}\n',
+    'def f(x) -> int:\n  class A(dict(\n    a=x).__class__): pass\n',
+    'def f(x) -> int:\n  class A(list[\n    int]): pass\n',
+    'def f(x) -> int:\n  if g(x,\n    x): pass\n',
+    'def f(x) -> int:\n  for i in g(x,\n    x): pass\n',
+    'def f(x) -> int:\n  with g(x,\n    x): pass\n',
+    'def f(x) -> int:\n  while g(x,\n    x): break\n',
+    'def f(x) -> int:\n  match x:\n    case y if isinstance(\n      y, str): pass\n',
+    'def f(x) -> int:\n  y = g(x)(\n    x)(\n    x)\n',
+    'def f(x) -> int:\n  y = g(x\n  ).a(\n  ).b()\n',
+    'def f(x) -> int:\n  @g(x,\n    x)\n  def h(): pass\n',
+    'def f(x) -> int:\n  y = lambda: g(\n    x)\n',
+    'def f(x) -> int:\n  assert g(x,\n    x)\n',
+    'def f(x) -> int:\n  del x[\n    0]\n',
+]
+
+
+def stmt_start(src, line):
+  """First line of the innermost simple statement (or compound-statement header) that contains `line`."""
+  import ast  # pylint: disable=g-import-not-at-top
+  best = None
+  try:
+    tree = ast.parse(src)
+  except SyntaxError:
+    return line
+  for node in ast.walk(tree):
+    if isinstance(node, ast.stmt) and node.lineno <= line <= (node.end_lineno or node.lineno):
+      if isinstance(node, (ast.FunctionDef, ast.AsyncFunctionDef, ast.ClassDef, ast.If, ast.For, ast.While, ast.With, ast.Try, ast.Match)):
+        # header only
+        body0 = node.body[0].lineno if node.body else node.lineno
+        if line >= body0 and not (node.body and node.body[0].lineno == node.lineno):
+          continue
+      if best is None or node.lineno >= best:
+        best = node.lineno
+  return best or line
+
+
+def stmt_range(src, line):
+  """(first, last) line of the innermost statement / compound-statement header containing `line`."""
+  import ast  # pylint: disable=g-import-not-at-top
+  try:
+    tree = ast.parse(src)
+  except SyntaxError:
+    return [(line, line)]
+  best = None
+  cands = []
+  for node in ast.walk(tree):
+    if not isinstance(node, ast.stmt):
+      continue
+    lo, hi = node.lineno, node.end_lineno or node.lineno
+    if isinstance(getattr(node, 'body', None), list) and node.body:
+      # compound statement: its header (all expressions outside the nested blocks)
+      hi = node.lineno
+      for field, val in ast.iter_fields(node):
+        if field in ('body', 'orelse', 'handlers', 'finalbody', 'cases'):
+          continue
+        for v in (val if isinstance(val, list) else [val]):
+          if isinstance(v, ast.AST):
+            for sub in ast.walk(v):
+              if getattr(sub, 'end_lineno', None):
+                hi = max(hi, sub.end_lineno)
+              if getattr(sub, 'lineno', None):
+                lo = min(lo, sub.lineno)
+      b0 = node.body[0] if not isinstance(node, ast.Match) else None
+      if b0 is not None and b0.lineno <= hi:
+        hi = max(hi, b0.end_lineno or b0.lineno)      # `header: body` on one line
+    if lo <= line <= hi:
+      cands.append((lo, hi))
+      if best is None or lo >= best[0]:
+        best = (lo, hi)
+  if best is None:
+    # e.g. a `case` header inside match
+    for node in ast.walk(tree):
+      if isinstance(node, ast.match_case):
+        lo = node.pattern.lineno
+        hi = node.body[0].lineno - 1 if node.body[0].lineno > lo else (node.body[0].end_lineno or lo)
+        if node.guard is not None:
+          hi = max(hi, node.guard.end_lineno)
+        if lo <= line <= hi:
+          best = (lo, hi)
+          cands.append((lo, hi))
+  return cands or [(line, line)]
+
+
+def explain(base, got, ename, line, is_ignore, S, E):
+  """Classifies a deviation.  Known (by design, F6/F9): a directive inside a multi-line statement [S, E] acts on
+  the whole logical line range -- it also silences matching errors on the other lines of the statement, and it may
+  move an implicit-return bad-return-type error of the enclosing function into the statement's range.  The error the
+  directive was written for must be gone in any case; anything else is `other`."""
+  import collections  # pylint: disable=g-import-not-at-top
+  b, g = collections.Counter(base), collections.Counter(got)
+  removed, added = b - g, g - b
+  matches = lambda e: is_ignore or e[0] == ename
+  targets = [e for e in b if e[1] == line and matches(e)]
+  if any(g[t] for t in targets):
+    return 'other'                       # the directive did not silence the error it was written for
+  if S == E:
+    return 'other'
+  moved_to = [e for e in added.elements()]
+  if any(not (e[0] == 'bad-return-type' and S <= e[1] <= E) for e in moved_to):
+    return 'other'
+  moved_from = [e for e in removed.elements() if e[0] == 'bad-return-type' and e not in targets]
+  if len(moved_to) > len(moved_from):
+    return 'other'
+  rest = list((removed - collections.Counter(targets) ).elements())
+  for e in moved_from[:len(moved_to)]:
+    rest.remove(e)
+  rest = [e for e in rest if e not in targets]
+  if any(not (S <= e[1] <= E and matches(e)) for e in rest):
+    return 'other'
+  return 'F6-directive-acts-on-the-whole-multi-line-statement'
+
+
+def strip_marker_comments(src):
+  """Removes the `# error-name[e]` marker comments of CheckWithErrors snippets (keeps directives and type comments)."""
+  import io as _io  # pylint: disable=g-import-not-at-top
+  import tokenize  # pylint: disable=g-import-not-at-top
+  lines = src.split('\n')
+  try:
+    for tok in tokenize.generate_tokens(_io.StringIO(src).readline):
+      if tok.type == tokenize.COMMENT and 'type:' not in tok.string and 'pytype:' not in tok.string:
+        r, c = tok.start
+        lines[r - 1] = lines[r - 1][:c].rstrip()
+  except (tokenize.TokenError, IndentationError, SyntaxError):
+    return src
+  return '\n'.join(lines)
+
+
+def corpus_sweep(repo, tier, analyse, violations):
+  """Every error of realistic programs (multi-line statements, decorated functions, implicit returns) x trailing directive."""
+  import corpus  # pylint: disable=g-import-not-at-top
+  progs = [('shape%d' % i, 'def g(*a): return a\n' + s) for i, s in enumerate(IMPLICIT_RETURN_SHAPES)]
+  progs += [(n_, strip_marker_comments(s_)) for n_, s_ in corpus.load(repo, stride=30 if tier == 'quick' else 3)]
+  checks = 0
+  nprog = 0
+  for name, src in progs:
+    if len(violations) >= 12:
+      break
+    lines = src.split('\n')
+    try:
+      base, base_pyi = analyse(src)
+    except Exception:  # pylint: disable=broad-except
+      continue
+    if not base:
+      continue
+    nprog += 1
+    for (ename, line) in sorted(set(base)):
+      if line is None or line < 1 or line > len(lines) or '#' in lines[line - 1] or lines[line - 1].rstrip().endswith('\\'):
+        continue
+      if lines[line - 1].count('"""') % 2 or lines[line - 1].count("'''") % 2:
+        continue
+      for directive in ('# pytype: disable=%s' % ename, '# type: ignore'):
+        new_lines = list(lines)
+        new_lines[line - 1] += '  ' + directive
+        new_src = '\n'.join(new_lines)
+        try:
+          compile(new_src, '<d>', 'exec')
+          got, pyi = analyse(new_src)
+        except Exception:  # pylint: disable=broad-except
+          continue
+        checks += 1
+        if directive.startswith('# type'):
+          want = [x for x in base if x[1] != line]
+        else:
+          want = [x for x in base if x != (ename, line)]
+        if got == want:
+          continue
+        cause = 'other'
+        for S, E in stmt_range(src, line):
+          cause = explain(base, got, ename, line, directive.startswith('# type'), S, E)
+          if cause != 'other':
+            break
+        if cause != 'other' and any(v.get('cause') == cause for v in violations):
+          continue
+        violations.append(dict(kind='directive', cause=cause, program_name=name, directive=directive.split('=')[0], line=line,
+                               what='adding %r to line %d of %s: errors %s -> %s, expected %s' % (directive, line, name, base, got, want),
+                               program=new_src))
+  return [dict(function='directive handling through the VM on realistic programs',
+               bound='%d programs with errors (upstream functional-test snippets + %d implicit-return shapes whose last line closes a multi-line construct); '
+                     'every reported error x {trailing disable, trailing type: ignore}' % (nprog, len(IMPLICIT_RETURN_SHAPES)), cases=checks)]
+
+
 def main():
   mode, repo = sys.argv[1], sys.argv[2]
   payload = json.loads(sys.stdin.read() or '{}')
@@ -94,9 +282,10 @@ def main():
                                  program='\n'.join(new_lines)))
       except Exception as e:  # pylint: disable=broad-except
         violations.append(dict(kind='vm-crash', what=repr(e), program='\n'.join(new_lines)))
+  extra = corpus_sweep(repo, tier, analyse, violations)
   print(json.dumps(dict(
       violations=violations,
-      bounded=[dict(function='directive handling through the VM (parser.py, Director, filter_error, ErrorLog)',
+      bounded=extra + [dict(function='directive handling through the VM (parser.py, Director, filter_error, ErrorLog)',
                     bound='%d random single-line-statement programs (10 error templates incl. string annotations, an error on line 1 in half of them); every reported error x {trailing disable, trailing type: ignore, stand-alone disable/enable}' % nprog,
                     cases=checks)],
       spec_validation=[],
